@@ -45,7 +45,7 @@ Sym(t)       == Tok(t, "", 0)
 (* universe is fixed here; the driver reports what re.search really says    *)
 (* and the trace module compares (R4).                                      *)
 Universe == {"a", "b", "ab"}
-Bodies   == {"a", "b", "^a", "b$", "b|a$", "a,b", "a&b", "^(a|b)$"}
+Bodies   == {"a", "b", "^a", "b$", "b|a$", "a,b", "a&b", "^(a|b)$", "b.a"}
 Matches(body, tag) ==
     CASE body = "a"  -> tag \in {"a", "ab"}
       [] body = "b"  -> tag \in {"b", "ab"}
@@ -56,6 +56,9 @@ Matches(body, tag) ==
       [] body = "a,b"     -> FALSE
       [] body = "a&b"     -> FALSE
       [] body = "^(a|b)$" -> tag \in {"a", "b"}
+      \* matches no single tag (but would match "b" and "a" written one after the other): a regex is
+      \* searched in every tag separately, like the anchored ones above
+      [] body = "b.a"     -> FALSE
       [] OTHER -> FALSE
 (* the characters of the names above (TLC cannot take a string apart) *)
 CharsOf(s) ==
@@ -63,6 +66,7 @@ CharsOf(s) ==
       [] s = "^a" -> <<"^", "a">> [] s = "b$" -> <<"b", "$">>
       [] s = "b|a$" -> <<"b", "|", "a", "$">> [] s = "a,b" -> <<"a", ",", "b">>
       [] s = "a&b" -> <<"a", "&", "b">> [] s = "^(a|b)$" -> <<"^", "(", "a", "|", "b", ")", "$">>
+      [] s = "b.a" -> <<"b", ".", "a">>
 
 RECURSIVE Eval(_, _)
 Eval(x, S) ==
